@@ -68,7 +68,7 @@ Definition e_nhist (o : option nhist) : sx :=
   match o with
   | None => LL [SS "refused"]
   | Some x => LL [SS "ok"; e_list e_bins (h_bins (nh x)); e_qs (h_freq (nh x)); e_qs (h_err2 (nh x));
-                  e_list SS (nh_names x); QQ (total (nh x))]
+                  e_list SS (nh_names x); QQ (total (nh x)); e_list e_x (h_missed (nh x))]
   end.
 
 Record c09 := { p_h : nhist; p_ops : list pop }.
@@ -95,15 +95,16 @@ Fixpoint check_steps (x : nhist) (ops : list pop) (obs : list sx) : bool :=
   | o :: ops', ob :: obs' =>
       match pstep x o, ob with
       | None, LL [SS "refused"] => check_steps x ops' obs'
-      | Some y, LL [SS "ok"; b; f; e; n; t] =>
-          match d_list d_bins b, d_list d_q f, d_list d_q e, d_list d_str n, d_q t with
-          | Some b, Some f, Some e, Some n, Some t =>
+      | Some y, LL [SS "ok"; b; f; e; n; t; m] =>
+          match d_list d_bins b, d_list d_q f, d_list d_q e, d_list d_str n, d_q t, d_list d_x m with
+          | Some b, Some f, Some e, Some n, Some t, Some m =>
               all2 (all2 (fun p q : bin => Qceqb (fst p) (fst q) && Qceqb (snd p) (snd q))) (h_bins (nh y)) b &&
               closel 0 (h_freq (nh y)) f && closel 0 (h_err2 (nh y)) e &&
               all2 String.eqb (nh_names y) n &&
               match o with PProject _ | PT => Qceqb t (total (nh x)) | _ => true end &&
+              all2 xeqb (h_missed (nh y)) m &&        (* T and accumulate keep the missed weight, a projection starts at 0 *)
               check_steps y ops' obs'
-          | _, _, _, _, _ => false end
+          | _, _, _, _, _, _ => false end
       | _, _ => false end
   | _, _ => false end.
 
